@@ -34,7 +34,8 @@ func vhRoundTrip(cmd model.CmdType) model.CmdType {
 	return out
 }
 
-var vhC18Shapes = []string{"read", "read-selector", "read-elements", "reply", "reply-partial", "notify-full", "notify-partial", "notify-partial-selector", "notify-delete-selector", "notify-delete-elements"}
+var vhC18Shapes = []string{"read", "read-selector", "read-elements", "reply", "reply-partial", "notify-full", "notify-partial", "notify-partial-selector", "notify-delete-selector", "notify-delete-elements",
+	"read-selector-elements", "notify-delete-selector-elements", "notify-delete-and-partial-selector"}
 
 // C18 (tag-resolution half): for every registered function the command the API builds, after a JSON
 // round trip, is recognised as the same function with the same payload type and yields the same filters.
@@ -56,8 +57,11 @@ func VH_c18_tags() {
 	}
 	spec := verifrt.Spec{Depth: 1, MaxUint: 999, Skip: []string{"TimePeriodType"}}
 	var sel, elem any
-	needSel := shape == "read-selector" || shape == "notify-partial-selector" || shape == "notify-delete-selector"
-	needElem := shape == "read-elements" || shape == "notify-delete-elements"
+	both := shape == "read-selector-elements" || shape == "notify-delete-selector-elements"
+	twoSel := shape == "notify-delete-and-partial-selector"
+	needSel := shape == "read-selector" || shape == "notify-partial-selector" || shape == "notify-delete-selector" || both || twoSel
+	needElem := shape == "read-elements" || shape == "notify-delete-elements" || both
+	var sel2 any
 	if needSel {
 		if d.NewSel == nil {
 			verifrt.Reach("no-selector-type")
@@ -65,6 +69,10 @@ func VH_c18_tags() {
 		}
 		sel = d.NewSel()
 		verifrt.Fill("sel", sel, spec)
+		if twoSel {
+			sel2 = d.NewSel()
+			verifrt.Fill("sel2", sel2, spec)
+		}
 	}
 	if needElem {
 		if d.NewElem == nil || d.ElemShared {
@@ -76,7 +84,8 @@ func VH_c18_tags() {
 	}
 	// stored data for reply / notify
 	data := d.NewPayload()
-	if shape != "read" && shape != "read-selector" && shape != "read-elements" {
+	isRead := shape == "read" || shape == "read-selector" || shape == "read-elements" || shape == "read-selector-elements"
+	if !isRead {
 		verifrt.Fill("data", data, verifrt.Spec{MaxLen: 1, Depth: 1, MaxUint: 999, Skip: []string{"TimePeriodType"}})
 		_, _ = fdc.UpdateDataAny(false, true, data, nil, nil)
 	}
@@ -111,6 +120,15 @@ func VH_c18_tags() {
 	case "notify-delete-elements":
 		cmd = fdc.NotifyOrWriteCmdType(nil, nil, false, elem)
 		wantDelete = true
+	case "read-selector-elements":
+		cmd = fdc.ReadCmdType(sel, elem)
+		wantPartial = true
+	case "notify-delete-selector-elements":
+		cmd = fdc.NotifyOrWriteCmdType(sel, nil, false, elem)
+		wantDelete = true
+	case "notify-delete-and-partial-selector":
+		cmd = fdc.NotifyOrWriteCmdType(sel, sel2, false, nil)
+		wantDelete, wantPartial = true, true
 	}
 	verifrt.Reach("built")
 	got := vhRoundTrip(cmd)
@@ -120,7 +138,7 @@ func VH_c18_tags() {
 	if err == nil {
 		verifrt.Assert("recognised-as-the-same-function", cd.Function != nil && *cd.Function == fn)
 		verifrt.Assert("same-payload-type", reflect.TypeOf(cd.Value) == reflect.TypeOf(d.NewPayload()))
-		if shape != "read" && shape != "read-selector" && shape != "read-elements" {
+		if !isRead {
 			verifrt.Assert("same-payload", verifrt.DeepEq(cd.Value, data))
 		}
 	}
@@ -156,6 +174,13 @@ func VH_c18_tags() {
 		check(fd, sel, nil)
 	case "notify-delete-elements":
 		check(fd, nil, elem)
+	case "read-selector-elements":
+		check(fp, sel, elem)
+	case "notify-delete-selector-elements":
+		check(fd, sel, elem)
+	case "notify-delete-and-partial-selector":
+		check(fd, sel, nil)
+		check(fp, sel2, nil)
 	}
 }
 
